@@ -12,7 +12,7 @@ EXPLANATION = ("Order/dominance and provenance facts over the MIR of the three p
                "that hold on every execution at once (success paths of `?` considered); that a particular alteration changes "
                "the Blake3 digest is the hash's property and is assumed."
                " (R5) an error met while locating, opening or parsing a pack is never turned into 'absent' (= C06-R7): the container-wide check cannot skip an altered pack."
-               ' Added later: (R6) FileSource positions every read with an absolute seek (the read buffer is discarded, a re-check re-reads the file); (R1) before the hash, rewind() is the origin only for a creator that recorded none.')
+               ' Added later: (R6) FileSource positions every read with an absolute seek (the read buffer is discarded, a re-check re-reads the file); (R1) before the hash, rewind() is the origin only for a creator that recorded none. (R5) also the match form: an Err arm that goes on to a normal return.')
 ASSUMPTIONS = ["Blake3 collision resistance", "CheckKind::None (container packs) verifies by design",
                "std::io Seek/Read/Write semantics", "rustc MIR construction and trait resolution"]
 
